@@ -321,31 +321,34 @@ theorem ecdsa_recover_signer_secp256k1
       (EC.ops secp256k1).eq Q' ((EC.ops secp256k1).mul q secp256k1.G) = true :=
   Btc.E2E.ecdsa_recover_signer_secp256k1 hk hq h primeOrder lowerS' hl'
 
-/-- T2 + T2' over the RAW arithmetic for ANY key the API accepts (`pubKeyOk`: `point_from_pub_key` on a tuple; `x`
-    reduced), under cofactor one: the public boolean with the EXECUTED x-coordinate screen `isXCoord C` (`hX` proved:
+/-- T2 + T2' over the RAW arithmetic for ANY key the API accepts (`pubKeyOk`: `point_from_pub_key` on a tuple, which
+    refuses coordinates outside `0..p-1`, points off the curve and `y = 0`), under cofactor one: the public boolean with the EXECUTED x-coordinate screen `isXCoord C` (`hX` proved:
     `Btc.E2E.isXCoord_complete`) equals `verify`, and `verify` is the SEC 1 relation for the point `Q` denotes. -/
 theorem ecdsa_verify_api_is_sec1_ec_cofactor_one {p : ℕ} [Fact p.Prime] {C : Curve} (K : CurveOk p C)
     (hcof : ∀ g : Pt p C.toCurveGroup, C.n • g = 0) (c : ℤ) (Q : Point)
-    (hk : pubKeyOk C Q = true) (hx : 0 ≤ Q.1 ∧ Q.1 < C.p) (r s : ℤ) :
+    (hk : pubKeyOk C Q = true) (r s : ℤ) :
     (verifyFull (EC.ops C) (isXCoord C) c Q r s = true ↔ verify (EC.ops C) c Q r s = true) ∧
     (verify (EC.ops C) c Q r s = true ↔
-      Grp.SEC1 (lawfulGroup_ec K) c ⟨Q, inSubOf hcof (valid_of_pubKeyOk K hk hx).1 (valid_of_pubKeyOk K hk hx).2.1⟩ r s) :=
-  Btc.E2E.ecdsa_verify_api_is_sec1_key K hcof c Q hk hx r s
+      Grp.SEC1 (lawfulGroup_ec K) c ⟨Q, inSubOf hcof (valid_of_pubKeyOk K hk).1 (valid_of_pubKeyOk K hk).2.1⟩ r s) :=
+  Btc.E2E.ecdsa_verify_api_is_sec1_key K hcof c Q hk r s
 
-/-- the same on secp256k1; `hcof` (the curve has exactly `n` points) is the one assumption -/
-theorem ecdsa_verify_api_is_sec1_secp256k1_cofactor_one (hcof : ∀ g : SecpGroup, secp256k1.n • g = 0) (c : ℤ)
-    (Q : Point) (hk : pubKeyOk secp256k1 Q = true) (hx : 0 ≤ Q.1 ∧ Q.1 < secp256k1.p) (r s : ℤ) :
+/-- the same on secp256k1; `SecpCofactorOne` (the curve has exactly `n` points) is the one assumption -/
+theorem ecdsa_verify_api_is_sec1_secp256k1_cofactor_one (hcof : SecpCofactorOne) (c : ℤ)
+    (Q : Point) (hk : pubKeyOk secp256k1 Q = true) (r s : ℤ) :
     (verifyFull (EC.ops secp256k1) (isXCoord secp256k1) c Q r s = true ↔
       verify (EC.ops secp256k1) c Q r s = true) ∧
     (verify (EC.ops secp256k1) c Q r s = true ↔
       Grp.SEC1 secpLawfulG c ⟨Q, @inSubOf secp256k1_p ⟨secp256k1_p_prime⟩ secp256k1 hcof _
-        (@valid_of_pubKeyOk secp256k1_p ⟨secp256k1_p_prime⟩ secp256k1 secpOk Q hk hx).1
-        (@valid_of_pubKeyOk secp256k1_p ⟨secp256k1_p_prime⟩ secp256k1 secpOk Q hk hx).2.1⟩ r s) :=
-  Btc.E2E.ecdsa_verify_api_is_sec1_secp256k1 hcof c Q hk hx r s
+        (@valid_of_pubKeyOk secp256k1_p ⟨secp256k1_p_prime⟩ secp256k1 secpOk Q hk).1
+        (@valid_of_pubKeyOk secp256k1_p ⟨secp256k1_p_prime⟩ secp256k1 secpOk Q hk).2.1⟩ r s) :=
+  Btc.E2E.ecdsa_verify_api_is_sec1_secp256k1 hcof c Q hk r s
 
 -- on the toy curve (31 points = n: cofactor one holds by counting is not attempted; the hypothesis is satisfiable
 -- there) a key the API accepts: `pubKeyOk` computes
 example : pubKeyOk toyC ((EC.ops toyC).mul 5 toyC.G) = true := by decide +kernel
+-- … and a key written with a non-reduced x is refused, as `is_on_curve` refuses it (/repo d8821600)
+example : pubKeyOk toyC (((EC.ops toyC).mul 5 toyC.G).1 + 43, ((EC.ops toyC).mul 5 toyC.G).2) = false := by
+  decide +kernel
 
 -- non-vacuity: `CurveOk` is PROVED for `y² = x³ + 7` over `F₄₃` (31 points), so on it nothing is assumed: an actual
 -- signing run of btclib's arithmetic, and the theorems' verdicts on it
